@@ -1,5 +1,6 @@
 mod blobmc;
 mod cfilter;
+mod corrupt;
 mod driver;
 mod evidence;
 mod hx;
@@ -33,6 +34,7 @@ fn main() {
             }
             match args[2].as_str() {
                 "C12" => run_tablemc(&args[3]),
+                "C10" => run_corrupt(&args[3]),
                 _ => run_hx(&args[2], &args[3]),
             }
         }
@@ -42,6 +44,7 @@ fn main() {
             }
             run_replay(&args[2])
         }
+        "corrupt-worker" => corrupt::worker_main(),
         _ => usage(),
     };
     std::process::exit(code);
@@ -251,6 +254,68 @@ fn report(prop: &str, items: Vec<(String, String, serde_json::Value)>) -> (i32, 
     (exit, n_viol, n_known)
 }
 
+fn run_corrupt(tier: &str) -> i32 {
+    let (max_wall, _) = registry::caps(tier);
+    let o = corrupt::run(tier, threads(), max_wall);
+    let mut items = vec![];
+    let mut seen = std::collections::BTreeSet::new();
+    let mut exit2 = !o.harness_errors.is_empty();
+    for e in o.harness_errors.iter().take(10) {
+        eprintln!("MACHINERY: {e}");
+    }
+    for c in &o.found {
+        if !seen.insert(c.sig.clone()) {
+            continue;
+        }
+        let r1 = corrupt::replay(c);
+        let r2 = corrupt::replay(c);
+        if !r1.starts_with("DIFF") || !r2.starts_with("DIFF") {
+            eprintln!("MACHINERY: corrupt case {} did not replay as a silent difference ({r1} / {r2})", c.sig);
+            exit2 = true;
+            continue;
+        }
+        items.push((c.sig.clone(), c.msg.clone(), serde_json::to_value(c).unwrap()));
+    }
+    let (mut exit, n_viol, n_known) = report("C10", items);
+    if exit2 && exit == 0 {
+        exit = 2;
+    }
+    let _ = std::fs::remove_dir_all(hx::scratch_root());
+    let ev = evidence::Evidence {
+        property: "C10".into(),
+        tier: tier.into(),
+        level: "fault_enumeration".into(),
+        coverage: serde_json::json!({
+            "evaluations": o.mutants,
+            "distinct_nontrivial": o.mutants - o.same,
+            "rule": "every byte of every file of each persisted subject tree x {single-bit flips (quick: masks 0x01,0x80; thorough: all 8), byte:=0x00, byte:=0xFF (thorough)} and truncation to every length (quick: every 7th for files > 64 bytes); each mutant is a distinct corrupted directory opened cold in a worker process and read completely; non-trivial = the outcome differs from the baseline run in any way (error, panic, abort, timeout or different answer)",
+            "samples": o.samples,
+            "exhaustive": !o.capped,
+            "capped": o.capped,
+            "files": o.files,
+            "bytes": o.bytes,
+            "outcomes": {"same": o.same, "error": o.err, "panic": o.panic, "abort": o.abort, "timeout": o.timeout, "different_answer": o.diff},
+            "loud_failures_not_raised": o.loud,
+            "known_findings_matched": n_known,
+        }),
+        assumptions: vec![
+            "single corruption per mutant (one bit / one byte / one truncation)".into(),
+            "panics, aborts and timeouts are loud failures: counted, not raised".into(),
+        ],
+        wall_s: o.wall_s,
+        violations: n_viol,
+    };
+    evidence::write_evidence(&ev);
+    eprintln!(
+        "[corrupt C10 {tier}] files={} bytes={} mutants={} same={} err={} panic={} abort={} timeout={} DIFF={} capped={} wall={:.1}s",
+        o.files, o.bytes, o.mutants, o.same, o.err, o.panic, o.abort, o.timeout, o.diff, o.capped, o.wall_s
+    );
+    for l in o.loud.iter().take(12) {
+        eprintln!("  loud: {l}");
+    }
+    exit
+}
+
 fn run_tablemc(tier: &str) -> i32 {
     let (max_wall, _) = registry::caps(tier);
     let o = tablemc::run(tier, threads(), max_wall);
@@ -341,6 +406,21 @@ fn run_replay(path: &str) -> i32 {
                 }
                 println!("VIOLATION property={} replay={path}", rp.property);
                 1
+            }
+        }
+        Some("corrupt") => {
+            let c: corrupt::CorruptReplay = serde_json::from_value(v).expect("corrupt replay");
+            let r = corrupt::replay(&c);
+            let _ = std::fs::remove_dir_all(hx::scratch_root());
+            println!("{} of {} at offset {} mask {:#04x}: {r}", c.kind, c.file, c.offset, c.mask);
+            if r.starts_with("DIFF") {
+                println!("VIOLATION property={} replay={path}", c.property);
+                1
+            } else if r.starts_with("HARNESS") {
+                2
+            } else {
+                println!("no violation on replay");
+                0
             }
         }
         Some("tablemc") => {
